@@ -114,6 +114,7 @@ type vfLoopTransport struct {
 	pf      *FProtocolFactory
 	st      *vfSCState
 	replies int
+	shared  *vsched.Obj
 }
 
 func (t *vfLoopTransport) SetMonitor(FTransportMonitor) {}
@@ -125,7 +126,9 @@ func (t *vfLoopTransport) GetRequestSizeLimit() uint    { return 0 }
 
 func (t *vfLoopTransport) serve(payload []byte) ([]byte, error) {
 	vsched.Yield() // the connection / write lock is not ours yet
+	t.shared.Write() // callers contend for the connection: their orders are not equivalent
 	vsched.Yield()
+	t.shared.Write()
 	if len(payload) < 4 {
 		return nil, fmt.Errorf("short request")
 	}
@@ -197,7 +200,7 @@ func vfStdClientMake(scn string) (func(), func(*vsched.Exec) (string, *vsched.Vi
 		for _, m := range []string{"add", "mul", "note"} {
 			proc.AddToProcessorMap(m, &vfPairFn{FBaseProcessorFunction: NewFBaseProcessorFunction(proc.GetWriteMutex(), nil), method: m, oneway: m == "note", st: st})
 		}
-		tr := &vfLoopTransport{proc: proc, pf: pf, st: st}
+		tr := &vfLoopTransport{proc: proc, pf: pf, st: st, shared: vsched.NewObj("connection")}
 		cl := NewFStandardClient(NewFServiceProvider(tr, pf))
 		for i, m := range methods {
 			c := &vfSCCaller{method: m, a: int32(3 + 10*i), b: int32(4 + 100*i)}
